@@ -30,7 +30,7 @@ var c22Indexes = []string{"C22A", "C22B", "C22C", "C22D", "C22E", "C22F"}
 
 const (
 	c22Unknown     = "C22ZZ"
-	c22Repeats     = 8    // expansions of the same input inside one process
+	c22Repeats     = 8    // expansions of the same input inside one process (map ranges: sorted, reversed, 6 shuffles)
 	c22StepBudget  = 4000 // spec look-ups one expansion may need (graphs have <= 10 nodes)
 	c22MaxRefDepth = 24
 	c22MinCU       = 1 // lower end of the allowed range (x/spec/types/spec.go: minCU); the upper end is the MaxCU param read at run time
@@ -43,7 +43,34 @@ var c22Keys = []spectypes.CollectionData{
 	{ApiInterface: spectypes.APIInterfaceTendermintRPC},
 }
 
+// c22Variants[i] are collection keys that share api interface and add-on with c22Keys[i] and
+// differ only in the connection type or the internal path (rest GET/POST, a json-rpc endpoint per
+// internal path, ...): a spec may carry several of them next to each other.
+var c22Variants = [][]spectypes.CollectionData{
+	{{ApiInterface: spectypes.APIInterfaceJsonRPC, Type: "POST", InternalPath: "/x"}, {ApiInterface: spectypes.APIInterfaceJsonRPC, Type: "POST", InternalPath: "/p"}},
+	{{ApiInterface: spectypes.APIInterfaceRest, Type: "POST"}, {ApiInterface: spectypes.APIInterfaceRest, Type: "GET", InternalPath: "/v2"}},
+	{{ApiInterface: spectypes.APIInterfaceJsonRPC, Type: "POST", AddOn: "debug", InternalPath: "/x"}, {ApiInterface: spectypes.APIInterfaceJsonRPC, Type: "GET", AddOn: "debug"}},
+	{{ApiInterface: spectypes.APIInterfaceTendermintRPC, InternalPath: "/ws"}, {ApiInterface: spectypes.APIInterfaceTendermintRPC, Type: "GET"}},
+}
+
 type c22GetFn func(index string) (spectypes.Spec, bool)
+
+// c22WithMapOrder runs fn with the map-order seam (engines built with "maporder": ranges over maps
+// in the chain code go through simrt.MapKeys) set for repetition i: sorted keys, reversed keys, then
+// a different shuffle for every repetition. On an engine without the seam this changes nothing and
+// the repetitions see the runtime's own (randomised) map order.
+func c22WithMapOrder(i int, fn func()) {
+	switch i {
+	case 0:
+		simrt.SetMapOrder(simrt.MapOrderSorted, 0)
+	case 1:
+		simrt.SetMapOrder(simrt.MapOrderReversed, 0)
+	default:
+		simrt.SetMapOrder(simrt.MapOrderShuffled, 0x9e3779b97f4a7c15*uint64(i))
+	}
+	defer simrt.SetMapOrder(simrt.MapOrderNative, 0)
+	fn()
+}
 
 func c22Clone(sp spectypes.Spec) spectypes.Spec {
 	b, err := sp.Marshal()
@@ -317,8 +344,11 @@ func (s *Sim) c22CheckInput(ctx sdk.Context, where string, sp spectypes.Spec) bo
 	var first spectypes.Spec
 	var firstBytes []byte
 	var firstErr error
+	simrt.MapOrderSites()
 	for i := 0; i < c22Repeats; i++ {
-		res, err := s.K.Spec.ExpandSpec(ctx, c22Clone(sp))
+		var res spectypes.Spec
+		var err error
+		c22WithMapOrder(i, func() { res, err = s.K.Spec.ExpandSpec(ctx, c22Clone(sp)) })
 		var b []byte
 		if err == nil {
 			b, _ = res.Marshal()
@@ -329,11 +359,14 @@ func (s *Sim) c22CheckInput(ctx sdk.Context, where string, sp spectypes.Spec) bo
 		}
 		r.OracleEvals++
 		if (err == nil) != (firstErr == nil) {
-			r.Fail("nondeterministic-expansion", where+":verdict", "the same input expanded with different verdicts in one process: run 0 err=%v, run %d err=%v. input: %s", firstErr, i, err, c22Describe(&sp))
+			r.Fail("nondeterministic-expansion", where+":verdict", "the same input expanded with different verdicts when repeated in one process (map iteration order: run 0 sorted keys, run 1 reversed, later runs shuffled; native order on an engine without the map-order seam): run 0 err=%v, run %d err=%v. input: %s", firstErr, i, err, c22Describe(&sp))
 		}
 		if err == nil && string(b) != string(firstBytes) {
-			r.Fail("nondeterministic-expansion", where+":result", "the same input expanded to different results in one process.\nrun 0: %s\nrun %d: %s\ninput: %s", c22Describe(&first), i, c22Describe(&res), c22Describe(&sp))
+			r.Fail("nondeterministic-expansion", where+":result", "the same input expanded to different results when repeated in one process (map iteration order: run 0 sorted keys, run 1 reversed, later runs shuffled; native order on an engine without the map-order seam).\nrun 0: %s\nrun %d: %s\ninput: %s", c22Describe(&first), i, c22Describe(&res), c22Describe(&sp))
 		}
+	}
+	if len(simrt.MapOrderSites()) > 0 {
+		r.Probe("c22_map_order_seam_active") // some map with several keys was ranged over in a chosen order
 	}
 	verdict := "ok"
 	if firstErr != nil {
@@ -448,6 +481,17 @@ func (s *Sim) c22Compare(ctx sdk.Context, where string, in, res *spectypes.Spec,
 		r.Fail("expansion-duplicate", d.sig, "API %s appears twice in collection %s of the expansion of %s.\n%s", d.name, c22KeyStr(d.key), in.Index, desc())
 		r.Probe("c22_known_duplicate_seen")
 	}
+	// vacuity: several inherited (not overridden) collections that share api interface and add-on
+	sameIfc := map[[2]string]int{}
+	for _, k := range ref.keys {
+		if rc := ref.cols[k]; !rc.own && rc.enabled {
+			g := [2]string{k.ApiInterface, k.AddOn}
+			sameIfc[g]++
+			if sameIfc[g] == 2 {
+				r.Probe("c22_same_interface_collections_inherited")
+			}
+		}
+	}
 	// 2. completeness + overrides
 	for _, k := range ref.keys {
 		rc := ref.cols[k]
@@ -552,19 +596,65 @@ func (s *Sim) c22DeliveredBy(ctx sdk.Context, in *spectypes.Spec, key spectypes.
 // ---------------------------------------------------------------------------------------------
 
 func (s *Sim) c22Api(name string, special bool) *spectypes.Api {
+	return s.c22ApiOn("ops", name, special)
+}
+
+func (s *Sim) c22ApiOn(stream, name string, special bool) *spectypes.Api {
 	r := s.R
-	a := &spectypes.Api{Name: name, Enabled: !r.Chance("ops", 1, 6), ComputeUnits: 10}
-	if r.Chance("ops", 1, 5) {
-		a.TimeoutMs = uint64(1000 * (1 + r.Draw("ops", 2))) // a different definition under the same name
+	a := &spectypes.Api{Name: name, Enabled: !r.Chance(stream, 1, 6), ComputeUnits: 10}
+	if r.Chance(stream, 1, 5) {
+		a.TimeoutMs = uint64(1000 * (1 + r.Draw(stream, 2))) // a different definition under the same name
 	}
-	if special && r.Chance("ops", 1, 10) {
+	if special && r.Chance(stream, 1, 10) {
 		max := s.K.Spec.MaxCU(s.Ctx)
 		pool := []uint64{max, max - 1, 1, 0, max + 1, 2, 1 << 40}
-		a.ComputeUnits = pool[r.Draw("ops", len(pool))]
-	} else if r.Chance("ops", 1, 6) {
+		a.ComputeUnits = pool[r.Draw(stream, len(pool))]
+	} else if r.Chance(stream, 1, 6) {
 		a.ComputeUnits = 20
 	}
 	return a
+}
+
+// c22AddVariants appends, next to own collections of the spec, collections whose key shares api
+// interface and add-on with it and differs in connection type / internal path. All choices come
+// from the stream "c22x" (an exhausted tape adds nothing).
+func (s *Sim) c22AddVariants(sp *spectypes.Spec, picked []int) {
+	r := s.R
+	if !r.Chance("c22x", 1, 2) {
+		return
+	}
+	cands := picked
+	if len(cands) == 0 {
+		cands = []int{r.Draw("c22x", len(c22Keys))} // a spec that only imports may still add a variant of its own
+	}
+	have := map[spectypes.CollectionData]bool{}
+	for _, c := range sp.ApiCollections {
+		have[c.CollectionData] = true
+	}
+	n := 1 + r.Draw("c22x", 3)
+	for i := 0; i < n; i++ {
+		ki := cands[r.Draw("c22x", len(cands))]
+		key := c22Variants[ki][r.Draw("c22x", len(c22Variants[ki]))]
+		if r.Chance("c22x", 1, 4) && !have[c22Keys[ki]] {
+			key = c22Keys[ki]
+		}
+		if have[key] {
+			continue
+		}
+		have[key] = true
+		col := &spectypes.ApiCollection{Enabled: !r.Chance("c22x", 1, 6), CollectionData: key}
+		napi := 1 + r.Draw("c22x", 3)
+		used := map[int]bool{}
+		for a := 0; a < napi; a++ {
+			k := r.Draw("c22x", 5)
+			if used[k] {
+				continue
+			}
+			used[k] = true
+			col.Apis = append(col.Apis, s.c22ApiOn("c22x", fmt.Sprintf("a%d", k), false))
+		}
+		sp.ApiCollections = append(sp.ApiCollections, col)
+	}
 }
 
 func (s *Sim) c22Spec(index string, imports []string) spectypes.Spec {
@@ -619,6 +709,7 @@ func (s *Sim) c22Spec(index string, imports []string) spectypes.Spec {
 		}
 		sp.ApiCollections = append(sp.ApiCollections, col)
 	}
+	s.c22AddVariants(&sp, picked)
 	return sp
 }
 
@@ -885,8 +976,9 @@ func (s *Sim) opC22Propose() {
 		s.c22Terminates(pre, "proposal-refresh", sp)
 	}
 	// the same proposal on two throw-away contexts, then for real
-	d1 := s.c22DryRun(specs)
-	d2 := s.c22DryRun(specs)
+	var d1, d2 c22Snapshot
+	c22WithMapOrder(0, func() { d1 = s.c22DryRun(specs) })
+	c22WithMapOrder(1, func() { d2 = s.c22DryRun(specs) })
 	r.Check(d1 == d2, "nondeterministic-expansion", "proposal-dry-run", "the same spec-add proposal gave different results on two identical states: ok=%v/%v, stores equal=%v. specs: %s", d1.ok, d2.ok, d1.specs == d2.specs, strings.Join(descs, " ; "))
 	real := make([]spectypes.Spec, len(specs))
 	for i := range specs {
@@ -1034,11 +1126,11 @@ func init() {
 	AddOp("c22_propose", (*Sim).opC22Propose)
 	AddOp("c22_expand", (*Sim).opC22Expand)
 	simrt.Register("C22", &simrt.PropSpec{Fn: runC22, NonTrivial: c22NonTrivial,
-		Rule:    "generated-input comparison inside chain histories: tape-generated import graphs over <= 6 generated specs plus the world's base specs (single specs with random imports, chains incl. child-before-parent order, diamonds, 2- and 3-cycles, self import, unknown import, modifications of stored parents that toggle a collection / change an API / rewire imports so that a cycle may close through a child, children that override an imported API by name in the same collection key; 4 collection keys incl. an add-on with intra-spec inheritance, disabled collections and APIs, extensions, parse directives, CU values at min-1/min/max-1/max/max+1/huge) are (a) submitted through the real spec-add proposal handler in an atomic transaction between the other operations of the mixed workload and (b) expanded directly with Keeper.ExpandSpec. Each input is first expanded through DoExpandSpec with a counting spec look-up (termination budget), then 8 times in the same process (results must be byte-identical), and compared with an independent recursive reference expansion. Only the interleaving of proposals with the rest of the history (parents modified under stored children, epochs, staking on the base specs) is simulation; the oracle itself is input/output comparison. Non-trivial = >=2 accepted and >=1 rejected proposals and at least one inherited API checked; distinct = (op,outcome,fault) sequence hash",
+		Rule:    "generated-input comparison inside chain histories: tape-generated import graphs over <= 6 generated specs plus the world's base specs (single specs with random imports, chains incl. child-before-parent order, diamonds, 2- and 3-cycles, self import, unknown import, modifications of stored parents that toggle a collection / change an API / rewire imports so that a cycle may close through a child, children that override an imported API by name in the same collection key; 4 collection keys incl. an add-on with intra-spec inheritance plus, per key, variants that share api interface and add-on and differ only in connection type / internal path (rest GET/POST, a json-rpc collection per internal path) so that a spec inherits several collections of one interface, disabled collections and APIs, extensions, parse directives, CU values at min-1/min/max-1/max/max+1/huge) are (a) submitted through the real spec-add proposal handler in an atomic transaction between the other operations of the mixed workload and (b) expanded directly with Keeper.ExpandSpec. Each input is first expanded through DoExpandSpec with a counting spec look-up (termination budget), then 8 times in the same process (results must be byte-identical; with the map-order seam of engine chainsim_mo the repetitions range over maps in sorted, reversed and 6 differently shuffled key orders, and the two proposal dry runs in sorted resp. reversed order), and compared with an independent recursive reference expansion. Only the interleaving of proposals with the rest of the history (parents modified under stored children, epochs, staking on the base specs) is simulation; the oracle itself is input/output comparison. Non-trivial = >=2 accepted and >=1 rejected proposals and at least one inherited API checked; distinct = (op,outcome,fault) sequence hash",
 		Real:    append(append([]string{}, chainReal...), "x/spec proposal handler (handleSpecProposal: SetSpec, ValidateSpec, RefreshSpec of every stored spec) via testutil/keeper.SimulateSpecAddProposal", "x/spec Keeper.ExpandSpec / GetExpandedSpec and types.DoExpandSpec (with a counting look-up function for the termination budget)"),
 		Stubbed: chainStub,
 		Assume: append(append([]string{}, chainAssume...),
-			"same-result-on-every-run is checked by repeating each expansion 8 times in one process (Go randomises map iteration per range statement) and by running each proposal on two throw-away cache contexts before the real one; no instrumented map-order replicas",
+			"same-result-on-every-run is checked by repeating each expansion 8 times in one process and by running each proposal on two throw-away cache contexts before the real one; on an engine built with the map-order seam (maporder: ./x/... ./utils/...) every `range` over a map in the chain code follows the order chosen per repetition (sorted / reversed / shuffled), which makes an order dependence show deterministically; without the seam the repetitions only see Go's own per-range randomisation (probe c22_map_order_seam_active tells which)",
 			"inputs are legal: collection keys are unique inside one spec and API names are unique inside one collection (the proposal's ValidateBasic requires the latter)",
 			"the allowed CU range is [1, MaxCU param]; exposed = enabled API in an enabled collection of the expanded spec",
 			"an API that the reference does not require may be present if it equals some definition in the import closure (lava keeps disabled APIs of an imported collection as disabled, and add-on collections pull APIs from sibling collections)",
